@@ -228,9 +228,9 @@ func (e *Engine) installStubs() {
 		priv := bvFromBytes(a[1].(*ArrayV))
 		sig := UF("Sign", 512, arr, ln, priv)
 		// instance axiom: Verify(PubOf(priv), msg, Sign(msg, priv)); omitted for
-		// messages over 1024 bytes (weekly statistics), whose signatures are
+		// messages over 4096 bytes (weekly statistics), whose signatures are
 		// never verified by the code under test
-		if n, ok := ln.ConstInt(); !ok || n <= 1024 {
+		if n, ok := ln.ConstInt(); !ok || n <= 4096 {
 			st.assume(UF("Verify", 0, UF("PubOf", 256, priv), arr, ln, sig))
 		}
 		e.noteAssumption("glow.Sign/Verify are uninterpreted functions over (message bytes, length, key); Verify(PubOf(k), m, Sign(m,k)) holds; no unforgeability assumed")
@@ -530,8 +530,9 @@ func (e *Engine) msgArray(st *State, s *SliceV, site string) (*Term, *Term) {
 	}
 	al := s.A[0]
 	// common base of all message arrays: an uninterpreted array (cvc5 rejects
-	// store chains over different constant arrays); bytes at and beyond the
-	// length are never compared on their own
+	// store chains over different constant arrays); every message array
+	// equals this base at and beyond its length, so that two messages with
+	// the same length and content are the same array (UF congruence)
 	zero := ArrVar("msg.base", 8)
 	if al.Base == nil {
 		return zero, BVu(0, 64)
@@ -539,7 +540,7 @@ func (e *Engine) msgArray(st *State, s *SliceV, site string) (*Term, *Term) {
 	if b, ok := e.bigLeaves(st, al.Base); ok {
 		TF.fresh++
 		j := Var(fmt.Sprintf("j!%d", TF.fresh), 64)
-		return Lambda(j, Ite(Ult(j, al.Len), Select(b.Leaves[0], Add(al.Off, j)), BVu(0, 8))), al.Len
+		return Lambda(j, Ite(Ult(j, al.Len), Select(b.Leaves[0], Add(al.Off, j)), Select(zero, j))), al.Len
 	}
 	n, ok := e.lenBound(st, al)
 	if !ok {
@@ -551,7 +552,7 @@ func (e *Engine) msgArray(st *State, s *SliceV, site string) (*Term, *Term) {
 		K := BVu(uint64(k), 64)
 		b := e.sliceGet(st, al, K).(*Term)
 		if !lenC {
-			b = Ite(Ult(K, al.Len), b, BVu(0, 8))
+			b = Ite(Ult(K, al.Len), b, Select(zero, K))
 		}
 		arr = Store(arr, K, b)
 	}
